@@ -2,7 +2,7 @@
    Go side: path.Join(path.Dir(base), path.Clean(ref)) as normalizeURI computes it (Base/Url.v);
    RFC side: merge + remove_dot_segments written from the RFC text (Base/Rfc3986.v). *)
 From Coq Require Import List String Ascii Bool Arith.
-From Spec Require Import Base.Json Base.Url Base.Rfc3986 Base.UrlFacts Base.PathText.
+From Spec Require Import Base.Json Base.Url Base.Rfc3986 Base.UrlFacts Base.UrlText Base.PathText Base.JoinClean Base.UriText.
 Import ListNotations.
 Local Open Scope char_scope.
 
@@ -52,6 +52,41 @@ Example C12_text_example :
   Forall okseg bs /\ Forall proper bs /\ okseg file /\ Forall okseg rs /\ proper (last rs [])
   /\ join2 (dir (flat (bs ++ [file]))) (join_with "/" rs) = s2l "/x/other.json".
 Proof. exact go_join_example. Qed.
+
+(* normalizeURI cleans the reference before joining it; that changes nothing: Join(dir, Clean(ref)) = Join(dir, ref) *)
+Theorem C12_cleaning_first_is_harmless : forall bs rs, Forall okseg bs -> Forall okseg rs -> rs <> [] -> proper (last rs []) ->
+  join2 (abs_path_of bs) (clean (join_with "/" rs)) = join2 (abs_path_of bs) (join_with "/" rs).
+Proof. exact join_of_cleaned_ref. Qed.
+Print Assumptions C12_cleaning_first_is_harmless.
+
+(* THE PROPERTY ON TEXTS, UNBOUNDED.  For every canonical base location without query - scheme://host/b1/.../bn/file,
+   file:///b1/.../bn/file, scheme:/b1/.../file - and every relative reference r1/.../rm#fragment, all in characters that
+   need no percent escape (letters, digits, - _ . ~; "/" in the fragment), non-empty segments, the last one a proper name,
+   "." and ".." anywhere before it, climbing above the root included, any number of segments on both sides:
+   the URL normalizeURI returns is, character for character, the one RFC 3986 section 5.2 prescribes (net/url's Parse and
+   String as modelled; the RFC side is Base/Rfc3986.v, written from the RFC's text). *)
+Theorem C12_normalize_uri_is_rfc_on_text : forall sch h om bs file rs f,
+  wf_plain (mkUrl sch h (flat (bs ++ [file])) [] false [] [] [] om) = true ->
+  Forall plainseg bs -> Forall proper bs -> plainseg file ->
+  Forall plainseg rs -> rs <> [] -> proper (last rs []) -> forallb pchar f = true ->
+  normalize_uri (print_url (mkUrl [] [] (join_with "/" rs) [] false [] f [] false))
+                (print_url (mkUrl sch h (flat (bs ++ [file])) [] false [] [] [] om))
+  = rfc_resolve_str (print_url (mkUrl [] [] (join_with "/" rs) [] false [] f [] false))
+                    (print_url (mkUrl sch h (flat (bs ++ [file])) [] false [] [] [] om)).
+Proof. exact normalize_uri_is_rfc_on_text. Qed.
+Print Assumptions C12_normalize_uri_is_rfc_on_text.
+
+(* the hypotheses are met, and the texts are what one expects *)
+Example C12_uri_text_example :
+  let bs := [s2l "r"; s2l "a"] in let file := s2l "root.json" in
+  let rs := [dotdot; s2l "b"; dot; dotdot; dotdot; dotdot; s2l "c.json"] in let f := s2l "/definitions/x" in
+  let b := mkUrl (s2l "file") [] (flat (bs ++ [file])) [] false [] [] [] false in
+  wf_plain b = true /\ Forall plainseg bs /\ Forall proper bs /\ plainseg file /\ Forall plainseg rs /\ proper (last rs [])
+  /\ forallb pchar f = true
+  /\ print_url b = s2l "file:///r/a/root.json"
+  /\ print_url (mkUrl [] [] (join_with "/" rs) [] false [] f [] false) = s2l "../b/./../../../c.json#/definitions/x"
+  /\ normalize_uri (s2l "../b/./../../../c.json#/definitions/x") (s2l "file:///r/a/root.json") = POk (s2l "file:///c.json#/definitions/x").
+Proof. exact uri_text_example. Qed.
 
 (* percent-escapes: printing then reading a path or fragment gives it back *)
 Theorem C12_escape_roundtrip : forall m s, unesc (escape m s) = Some s.
